@@ -44,7 +44,6 @@ type PRawCfg struct {
 }
 
 func rawOf(o controller.NodeGroupOptions) PRawCfg {
-	c := o // the accessors cache into the struct: work on a copy
 	_, perr := time.ParseDuration(o.MaxNodeAge)
 	return PRawCfg{
 		Name: o.Name, LabelKey: o.LabelKey, LabelValue: o.LabelValue, CloudGroup: o.CloudProviderGroupName,
@@ -52,8 +51,10 @@ func rawOf(o controller.NodeGroupOptions) PRawCfg {
 		Upper: int64(o.TaintUpperCapacityThresholdPercent), Lower: int64(o.TaintLowerCapacityThresholdPercent), ScaleUp: int64(o.ScaleUpThresholdPercent),
 		Slow: int64(o.SlowNodeRemovalRate), Fast: int64(o.FastNodeRemovalRate),
 		SoftStr: o.SoftDeleteGracePeriod, HardStr: o.HardDeleteGracePeriod, CoolStr: o.ScaleUpCoolDownPeriod,
-		SoftNs: int64(c.SoftDeleteGracePeriodDuration()), HardNs: int64(c.HardDeleteGracePeriodDuration()),
-		CoolNs: int64(c.ScaleUpCoolDownPeriodDuration()), MaxAgeNs: int64(c.MaxNodeAgeDuration()),
+		// durations as the option strings say (0 when a string does not parse, which is what the accessors document);
+		// what the accessors themselves return is observed next to it (accessorNs) and must be the same
+		SoftNs: durNs(o.SoftDeleteGracePeriod), HardNs: durNs(o.HardDeleteGracePeriod),
+		CoolNs: durNs(o.ScaleUpCoolDownPeriod), MaxAgeNs: durNs(o.MaxNodeAge),
 		TaintEffect: string(o.TaintEffect), Lifecycle: o.AWS.Lifecycle, MaxNodeAge: o.MaxNodeAge,
 		MaxNodeAgeParses: o.MaxNodeAge == "" || perr == nil,
 	}
@@ -68,6 +69,9 @@ func validateCase(w io.Writer, o controller.NodeGroupOptions, stats map[string]i
 				obs["panic"] = fmt.Sprint(p)
 			}
 		}()
+		c := o // the accessors cache into the struct: work on a copy
+		obs["accessorNs"] = []int64{int64(c.SoftDeleteGracePeriodDuration()), int64(c.HardDeleteGracePeriodDuration()),
+			int64(c.ScaleUpCoolDownPeriodDuration()), int64(c.MaxNodeAgeDuration())}
 		errs := controller.ValidateNodeGroup(o)
 		obs["problems"] = len(errs)
 		msgs := []string{}
@@ -93,7 +97,7 @@ func baseOpts() controller.NodeGroupOptions {
 }
 
 func runValidate(r *Rng, n int, w io.Writer, stats map[string]int) {
-	durs := []string{"", "0", "1m", "-1m", "1", "abc", "1h", "10m", "-10m", "2562047h", "1m30s", "0s", "1ns"}
+	durs := []string{"", "0", "1m", "-1m", "1", "abc", "1h", "10m", "-10m", "2562047h", "1m30s", "0s", "1ns", "-1ns", "-500ms", "1500ms", "-0.25s"}
 	ints := []int{-2, -1, 0, 1, 2, 40, 70}
 	// (a) one-at-a-time and pairwise perturbations of a valid base: bounded-exhaustive
 	b := baseOpts()
